@@ -22,15 +22,15 @@ CHECKS = {
          "Trusted: the reference tokenizer/renderer written from the C04/C19 statements and the walked calendar. Case left open by the statement (lU name tokens, mixed-case meridian) is compared ignoring case.",
          "4/C04"),
  "C09": ("exhaustive enumeration vs. floor-division month model on the walked calendar",
-         "All 3,652,059 dates x ~100 month offsets each (small offsets, the offsets reaching the first/last supported month and one beyond, the interval limits, seeded) through Date, and through Timestamp/OracleDate at critical times; last_day_of_month for all dates x times. The expected instant is computed by floor division and a calendar lookup; Ok iff that day exists in years 1..9999.",
+         "All 3,652,059 dates x ~100 month offsets each (small offsets, the offsets reaching the first/last supported month and one beyond, the interval limits, seeded) through Date, and through Timestamp/OracleDate at critical times; last_day_of_month for all dates x times. The expected instant is computed by floor division and a calendar lookup; Ok iff that day exists in years 1..9999. Call-order histories (ascending / descending / scrambled walks with type, operation and offset held fixed) are included.",
          "Trusted: walked calendar, integer model. Quick tier visits every third date (plus all days >= 28) for the Timestamp/OracleDate copies; thorough visits all.",
          "4/C09"),
  "C10": ("exhaustive enumeration vs. per-unit boundary predicates (model-based)",
-         "All dates x 12 units on Date, all dates x 15 critical times x 12 units on Timestamp and OracleDate, and every second of sampled days: the result must be the latest unit boundary not after the input as given by independent per-unit predicates over the walked calendar; Err iff none in range; idempotence re-checked through the library.",
+         "All dates x 12 units on Date, all dates x 15 critical times x 12 units on Timestamp and OracleDate, and every second of sampled days: the result must be the latest unit boundary not after the input as given by independent per-unit predicates over the walked calendar; Err iff none in range; idempotence re-checked through the library. Call-order histories (all dates again in descending and scrambled order, units interleaved) are included.",
          "Trusted: the 12 one-line boundary predicates and the walked calendar. Arbitrary microseconds inside a day matter only for hour/minute units, which are covered per second on sampled days.",
          "4/C10"),
  "C11": ("exhaustive enumeration vs. boundary predicates + documented midpoint rule; metamorphic mirror and monotonicity checks",
-         "Same domain as C10 for the 12 rounding units on the three types: the result must be the earlier/later neighbouring boundary selected by the documented midpoint, unchanged on a boundary, monotone between consecutive sweep points, Err exactly when the chosen boundary is out of range; shortened weeks accept either neighbour but are pinned at the top of the range by the mirror relation with year 9998. Known finding K1 is matched by signature.",
+         "Same domain as C10 for the 12 rounding units on the three types: the result must be the earlier/later neighbouring boundary selected by the documented midpoint, unchanged on a boundary, monotone between consecutive sweep points, Err exactly when the chosen boundary is out of range; shortened weeks accept either neighbour but are pinned at the top of the range by the mirror relation with year 9998. Known finding K1 is matched by signature. Call-order histories (all dates again in descending and scrambled order, units interleaved) are included.",
          "Trusted: boundary predicates, the midpoint table written from the statement and lib.rs docs. K1 (century years) is reported as KNOWN-FINDING, everything else is a violation.",
          "4/C11"),
  "C12": ("exhaustive seconds x boundary intervals + proptest pairs vs. i128 modular arithmetic",
@@ -42,7 +42,7 @@ CHECKS = {
          "Trusted: i128 arithmetic. Day-time intervals are sampled outside the +-2 day window.",
          "4/C13"),
  "C14": ("pool x classed-scalar sweeps + proptest vs. exact dyadic-rational arithmetic (no floating point in the oracle)",
-         "Interval/Time x mul_f64/div_f64 over boundary pools x classed doubles (integers, dyadic, decimal, tiny, huge, zeros, infinities, NaN, edge-seeking limit/x) and proptest-generated pairs: the result must lie in the exactly computed admissible set (relative 2^-52 then truncation toward zero; single value for integer multipliers below 2^53), errors must have the kind the statement names, and sign symmetry must hold on whole Results.",
+         "Interval/Time x mul_f64/div_f64 over boundary pools x classed doubles (integers, dyadic, decimal, tiny, huge, zeros, infinities, NaN, edge-seeking limit/x) and proptest-generated pairs: the result must lie in the exactly computed admissible set (relative 2^-52 then truncation toward zero; single value for integer multipliers below 2^53), errors must have the kind the statement names, and sign symmetry must hold on whole Results. The oracle locates results exactly against the overflow threshold of the double (2^1024 - 2^970) and accepts both error kinds only within the stated tolerance of it.",
          "Trusted: the dyadic decomposition (unit-tested); the admissible set is a superset of the statement's tolerance by at most a relative 2^-60, so ties cannot alarm.",
          "4/C14"),
  "C19": ("exhaustive short strings + proptest token sequences vs. reference longest-match tokenizer, observed through a probe rendering; both build profiles",
@@ -50,11 +50,11 @@ CHECKS = {
          "Trusted: the reference tokenizer written from the token list in the statement. Language membership beyond length 5 is sampled by grammar-based generation.",
          "4/C19"),
  "C02": ("operation-table cross-product sweeps + proptest operands vs. range predicates and exact models (validity oracle)",
-         "Every row of a 130-row table of safe public operations is crossed with boundary+seeded operand pools and extreme scalars, and fed proptest-generated operands; every returned value must satisfy its type's range predicate, rows with an exact model must return Ok(exact) iff in range (so clamping or an in-range wrap is caught), month arithmetic must match the month model or fail, and speller-built parse inputs at / past the edges must yield Err or an in-range value. Integers of every width handed to each type's Deserialize (serde de::value deserializers) must give an error or exactly the in-range value they denote, never a wrapped image.",
+         "Every row of a 130-row table of safe public operations is crossed with boundary+seeded operand pools and extreme scalars, and fed proptest-generated operands; every returned value must satisfy its type's range predicate, rows with an exact model must return Ok(exact) iff in range (so clamping or an in-range wrap is caught), month arithmetic must match the month model or fail, and speller-built parse inputs at / past the edges must yield Err or an in-range value. Integers of every width handed to each type's Deserialize (serde de::value deserializers) must give an error or exactly the in-range value they denote, never a wrapped image. Runs under both build profiles (release and overflow-checked) in every tier; scaling by limit-tuned factors, public constants and leap-second clock reads are included.",
          "Trusted: range limits derived from the walked calendar and the statement; the operation table is hand-written from the public API (a new public function is not picked up automatically). Sampled over operand space; boundary regions by construction.",
          "4/C02"),
  "C03": ("exhaustive short strings + proptest grammar/mutation generation + operation table with extreme scalars, oracle = catch_unwind; both build profiles; libFuzzer target in thorough",
-         "All strings up to length 3 (quick) / 4 (thorough) as pictures and as inputs, grammar pictures with long blank runs x mutated formatted inputs, and every operation-table row with extreme scalars are executed under release and under overflow-checked/debug-assertion builds; any panic in a safe call is a violation. Thorough adds a coverage-guided libFuzzer campaign (overflow checks on) over (type, picture, input) bytes.",
+         "All strings up to length 3 (quick) / 4 (thorough) as pictures and as inputs, grammar pictures with long blank runs x mutated formatted inputs, and every operation-table row with extreme scalars are executed under release and under overflow-checked/debug-assertion builds; any panic in a safe call is a violation. Thorough adds a coverage-guided libFuzzer campaign (overflow checks on) over (type, picture, input) bytes. Long texts / pictures with a multi-byte character across every byte offset and a re-entrant sink are included.",
          "Trusted: std::panic::catch_unwind observing every library call. Absence of panics is established only for what was generated; long structured inputs are sampled.",
          "4/C03"),
  "C05": ("exhaustive (year, day-of-year) / date / second sweeps + constructive speller with proptest shrinking; oracle = value known by construction, single-component perturbations must be rejected",
@@ -74,7 +74,7 @@ CHECKS = {
          "Trusted: i128 arithmetic, dyadic model. add_days may fail when the unrounded instant is outside the timestamp range (documented leniency).",
          "4/C16"),
  "C17": ("differential / metamorphic agreement of three implementations, exhaustive over dates",
-         "For every date (and critical whole-second times) each of the 24 trunc/round units, last_day_of_month, month and interval offsets and all subtraction variants are applied through Date, Timestamp and OracleDate and must denote the same instant or all fail; mixed-type comparisons in both argument orders must equal the comparison of the converted counts. No reference model is involved, so this is independent of the C10/C11 oracles.",
+         "For every date (and critical whole-second times) each of the 24 trunc/round units, last_day_of_month, month and interval offsets and all subtraction variants are applied through Date, Timestamp and OracleDate and must denote the same instant or all fail; mixed-type comparisons in both argument orders must equal the comparison of the converted counts. No reference model is involved, so this is independent of the C10/C11 oracles. Oracle-style differences are compared at equal and different times of day for every date.",
          "Trusted: only the conversions between the three types (themselves checked in C07/C16).",
          "4/C17"),
  "C18": ("exhaustive sweep of the injected clock over every possible current date x time-of-day classes vs. default model, omission grid over time-part pictures (needs the verif-hooks clock)",
@@ -119,7 +119,7 @@ def main():
         ],
         "checks": checks,
         "not_applicable": [{"property_id": p, "reason": NOT_BUILT_REASON} for p in ALL if p not in CHECKS],
-        "notes": "Exit codes of every command: 0 held, 1 violation (VIOLATION line + replay file), 2 infrastructure problem (never a violation). VERIF_SEED selects the proptest / pool seed (default 0). Known findings: known_findings.json.",
+        "notes": "Exit codes of every command: 0 held, 1 violation (VIOLATION line + replay file), 2 infrastructure problem (never a violation). VERIF_SEED selects the proptest / pool seed (default 0). Known findings: known_findings.json. The thorough tier runs every property under both build profiles (release, and overflow checks + debug assertions); the quick tier does so for C02, C03 and C19.",
     }
     with open(os.path.join(ROOT, "MANIFEST.json"), "w") as f:
         json.dump(man, f, indent=1)
